@@ -3,6 +3,7 @@
  * -DVF_FN_<function> selects the function under contract. */
 #include "vf/vf.h"
 #include "src/utils/ini.c"
+#include "src/utils/buf_str.c"	/* buf_get_next_line (ini_buf_parse) */
 #include "specs/ini_spec.h"
 #include "contracts/ini.h"
 
@@ -22,11 +23,8 @@ void harness(void) {
 	VF_OWN_OPT(size_t, sect_name_size);
 	if (sect_off != NULL) *sect_off = off_in;
 	int r = ini_sect_enum(ini, sect_off, sect_name, sect_name_size);
-	VF_NATIVE_POST(sect_off == NULL || (r == 0) ==
-	    (vf_ini_spec_sect_next(ini, VF_INI_NORM(ini, off_in)) != INI_OFFSET_INVALID),
-	    "ini_sect_enum: found iff the model has a next section");
-	VF_NATIVE_POST(r != 0 || *sect_off == vf_ini_spec_sect_next(ini, VF_INI_NORM(ini, off_in)),
-	    "ini_sect_enum: next section in file order");
+	VF_NATIVE_POST(vf_ini_post_sect_enum(ini, off_in, r, sect_off, sect_name, sect_name_size),
+	    "ini_sect_enum: next section in file order / ENOENT iff none");
 
 #elif defined(VF_FN_ini_sect_val_enum)
 	VF_NONDET(size_t, sect_off);
@@ -38,22 +36,22 @@ void harness(void) {
 	VF_OWN_OPT(size_t, val_size);
 	if (val_off != NULL) *val_off = off_in;
 	int r = ini_sect_val_enum(ini, sect_off, val_off, val_name, val_name_size, val, val_size);
-	VF_NATIVE_POST(val_off == NULL || (r == 0) ==
-	    (vf_ini_spec_val_next(ini, sect_off, off_in) != INI_OFFSET_INVALID),
-	    "ini_sect_val_enum: found iff the model has a next value in the section");
-	VF_NATIVE_POST(r != 0 || *val_off == vf_ini_spec_val_next(ini, sect_off, off_in),
-	    "ini_sect_val_enum: next value of the section in file order");
+	VF_NATIVE_POST(vf_ini_post_val_enum(ini, sect_off, off_in, r, val_off, val_name,
+	    val_name_size, val, val_size),
+	    "ini_sect_val_enum: next value of the section in file order / ENOENT iff none");
 
 #elif defined(VF_FN_ini_sect_find) || defined(VF_FN_ini_sect_findi)
 	VF_INI_SYM_NAME(sect_name, sect_name_size, sn, 1);
 #if defined(VF_FN_ini_sect_find)
 	size_t r = ini_sect_find(ini, sect_name, sect_name_size);
-	VF_NATIVE_POST(r == vf_ini_spec_sect_find(ini, sect_name, sect_name_size, 0),
+	VF_NATIVE_POST(r == (ini == NULL ? INI_OFFSET_INVALID :
+	    vf_ini_spec_sect_find(ini, sect_name, sect_name_size, 0)),
 	    "ini_sect_find: first section with exactly that name");
 #else
 	VF_ASSUME(vf_no_nul(sect_name, sect_name_size));
 	size_t r = ini_sect_findi(ini, sect_name, sect_name_size);
-	VF_NATIVE_POST(r == vf_ini_spec_sect_find(ini, sect_name, sect_name_size, 1),
+	VF_NATIVE_POST(r == (ini == NULL ? INI_OFFSET_INVALID :
+	    vf_ini_spec_sect_find(ini, sect_name, sect_name_size, 1)),
 	    "ini_sect_findi: first section with that name, ASCII case folded");
 #endif
 
@@ -62,12 +60,14 @@ void harness(void) {
 	VF_INI_SYM_NAME(val_name, val_name_size, vn, 0);
 #if defined(VF_FN_ini_sect_val_find)
 	size_t r = ini_sect_val_find(ini, sect_off, val_name, val_name_size);
-	VF_NATIVE_POST(r == vf_ini_spec_val_find(ini, sect_off, val_name, val_name_size, 0),
+	VF_NATIVE_POST(r == (ini == NULL ? INI_OFFSET_INVALID :
+	    vf_ini_spec_val_find(ini, sect_off, val_name, val_name_size, 0)),
 	    "ini_sect_val_find: first value of the section with exactly that name (case-sensitive)");
 #else
 	VF_ASSUME(vf_no_nul(val_name, val_name_size));
 	size_t r = ini_sect_val_findi(ini, sect_off, val_name, val_name_size);
-	VF_NATIVE_POST(r == vf_ini_spec_val_find(ini, sect_off, val_name, val_name_size, 1),
+	VF_NATIVE_POST(r == (ini == NULL ? INI_OFFSET_INVALID :
+	    vf_ini_spec_val_find(ini, sect_off, val_name, val_name_size, 1)),
 	    "ini_sect_val_findi: first value of the section with that name, ASCII case folded");
 #endif
 
@@ -78,17 +78,16 @@ void harness(void) {
 	VF_OWN_OPT(size_t, val_size);
 #if defined(VF_FN_ini_val_get)
 	int r = ini_val_get(ini, sect_name, sect_name_size, val_name, val_name_size, val, val_size);
-	size_t m = vf_ini_spec_lookup(ini, sect_name, sect_name_size, val_name, val_name_size, 0);
+	VF_NATIVE_POST(vf_ini_post_val_get(ini, sect_name, sect_name_size, val_name,
+	    val_name_size, 0, r, val, val_size),
+	    "ini_val_get: value of the first matching line of the first matching section");
 #else
 	VF_ASSUME(vf_no_nul(sect_name, sect_name_size) && vf_no_nul(val_name, val_name_size));
 	int r = ini_vali_get(ini, sect_name, sect_name_size, val_name, val_name_size, val, val_size);
-	size_t m = vf_ini_spec_lookup(ini, sect_name, sect_name_size, val_name, val_name_size, 1);
+	VF_NATIVE_POST(vf_ini_post_val_get(ini, sect_name, sect_name_size, val_name,
+	    val_name_size, 1, r, val, val_size),
+	    "ini_vali_get: value of the first matching line of the first matching section, case folded");
 #endif
-	(void)m;
-	VF_NATIVE_POST(val == NULL || val_size == NULL || (r == ENOENT) == (m == INI_OFFSET_INVALID),
-	    "ini_val[i]_get: ENOENT iff the model has no such (section, name)");
-	VF_NATIVE_POST(r != 0 || (*val == ini->lines[m]->val && *val_size == ini->lines[m]->val_size),
-	    "ini_val[i]_get: value of the first matching line of the first matching section");
 #else
 #error "select a function with -DVF_FN_<name>"
 #endif
